@@ -29,7 +29,11 @@ impl RequestHandler<Completion> for CompletionHandler {
                     .unwrap();
 
                 let source_line = params.text_document_position.position.line as usize;
-                let source_column = params.text_document_position.position.character as usize;
+                // (in characters; the protocol counts in UTF-16 code units)
+                let source_column = crate::lsp::to_char_column(
+                    codegen.tree().files.get(path).map(|f| f.file.as_ref()),
+                    &params.text_document_position.position,
+                );
 
                 // Try to determine the previous characters to see if we're trying to auto-complete inside a scope
                 let mut line = "";
@@ -43,11 +47,16 @@ impl RequestHandler<Completion> for CompletionHandler {
                     line = source_file.file.source_line(source_line);
 
                     // Only look at the line until the source_column
-                    if source_column <= line.len()
-                        && source_column > 0
-                        && line.is_char_boundary(source_column - 1)
-                    {
-                        let (line, suffix) = line.split_at(source_column - 1);
+                    let split_at = match source_column {
+                        0 => None,
+                        column => line
+                            .char_indices()
+                            .map(|(offset, _)| offset)
+                            .chain(std::iter::once(line.len()))
+                            .nth(column - 1),
+                    };
+                    if let Some(split_at) = split_at {
+                        let (line, suffix) = line.split_at(split_at);
 
                         // Are we autocompleting a dot?
                         if suffix.starts_with('.') {
